@@ -319,6 +319,34 @@ def check_open_flags(chk, tu, macros):
             extra = set(macros.get(h, 0) for h in list(O.OFLAGS) + list(O.FDFLAGS))
             bad = [fl for fl in flags if isinstance(fl, int) and any(fl & e for e in extra if e)]
             chk.expect(not bad, 'R12.3', 'open-flag:no-spurious', 'path_open without flags passes %r to open()' % (sorted(flags, key=str),), site)
+    # combinations: host flags are independent of each other - every pair of guest flags (thorough: every subset) must map to
+    # exactly the union of the host flags
+    import itertools
+    allf = [('oflags', h, b_) for h, b_ in O.OFLAGS.items() if macros.get(h) is not None] + \
+           [('fdflags', h, b_) for h, b_ in O.FDFLAGS.items() if macros.get(h) is not None]
+    mapped = 0
+    for _k, h, _b in allf:
+        mapped |= macros[h]
+    combos = [c for r_ in ((2,) if chk.tier == 'quick' else range(2, len(allf) + 1)) for c in itertools.combinations(allf, r_)]
+    if chk.tier == 'quick':
+        combos.append(tuple(allf))
+    for combo in combos:
+        ofl = sum(b_ for k_, h, b_ in combo if k_ == 'oflags')
+        fdfl = sum(b_ for k_, h, b_ in combo if k_ == 'fdflags')
+        want = 0
+        for k_, h, b_ in combo:
+            want |= macros[h]
+        label = '+'.join(h for k_, h, b_ in combo)
+
+        def mk(it, st):
+            return [unk('instance'), 3, 0, unk('path', 'unsigned int'), 5, ofl, RD, 0, fdfl, unk('fdout', 'unsigned int')]
+        paths = W.explore_entry(tu, f['name'], mk, lambda: std_table(0), errno_value=5, max_paths=2000)
+        flags = {a[1] for p in paths for n, a, l in p.events if n == 'extern:open'}
+        ok = bool(flags) and all(isinstance(fl, int) and (fl & mapped) == want for fl in flags)
+        chk.expect(ok, 'R12.3', 'open-flags:' + label,
+                   'path_open with %s calls open() with flags %s; among the mapped host flags exactly 0x%x (%s) must be set - each guest flag '
+                   'takes effect whatever other flags accompany it' % (label, sorted('0x%x' % fl if isinstance(fl, int) else repr(fl) for fl in flags),
+                                                                     want, label), 'path_open:flag-combination')
     # access mode from rights
     for label, rights, want in (('read', RD, acc[0]), ('write', WR, acc[1]), ('read+write', RD | WR, acc[2]), ('neither', 0, acc[0])):
         def mk(it, st):
